@@ -405,3 +405,14 @@ pub mod tcp {
         }
     }
 }
+
+pub mod conn_rules {
+    use super::ctx::Ctx;
+    use std::net::IpAddr;
+
+    /// true = admitted
+    pub fn admitted(ctx: &Ctx, client_ip: Option<IpAddr>, client_random: Option<&[u8]>) -> bool {
+        crate::core::verif_hooks_rules::evaluate_connection_rules(&ctx.0, client_ip, client_random)
+            .is_ok()
+    }
+}
